@@ -94,6 +94,7 @@ type Path struct {
 	RecvHook      func(fr *frame, ch *Chan, elem types.Type) (Value, bool)
 	MapOrderHook  func(fr *frame, es []*mapEntry) []*mapEntry
 	LockHook      func(fr *frame, mu *Value, op string)
+	locks         map[*Value]*lockState
 	ClockHook     func(fr *frame) Value
 	UnmarshalHook func(fr *frame, enc string, data Value, dst Iface) (Value, bool)
 
@@ -781,3 +782,6 @@ func (ex *Explorer) runPath(sol, sol2 *solver.Solver, prefix []int64) (res PathR
 	}
 	return
 }
+
+// lockState counts the holders of one mutex on this path (w: write lock, r: read locks).
+type lockState struct{ w, r int }
